@@ -166,7 +166,27 @@ def _(self, l, r, value):
 
 @contract('RepeatedNodeWrapperUpdateHandler.handle')
 def _(self):
-    modifies('RepeatedNodeWrapperUpdateHandler.g_hl@self', 'RepeatedNodeWrapperUpdateHandler.g_hr@self', 'RepeatedNodeWrapperUpdateHandler.g_hv@self')
+    modifies('RepeatedNodeWrapperUpdateHandler.g_hl@self', 'RepeatedNodeWrapperUpdateHandler.g_hr@self', 'RepeatedNodeWrapperUpdateHandler.g_hv@self', 'RepeatedNodeWrapperUpdateHandler.g_rebuilt@self')
+    ensures(self.g_rebuilt == True)
+
+# the unspecific announcement: every registered handler is told to rebuild from scratch
+@contract('RepeatedNodeWrapper._notify')
+def _(self):
+    requires(self != None and self._update_handlers != None and forall(lambda k: implies(0 <= k and k < len(self._update_handlers), self._update_handlers[k] != None), self._update_handlers[k]))
+    modifies('RepeatedNodeWrapperUpdateHandler.g_hl', 'RepeatedNodeWrapperUpdateHandler.g_hr', 'RepeatedNodeWrapperUpdateHandler.g_hv', 'RepeatedNodeWrapperUpdateHandler.g_rebuilt')
+    invariant(0, self._update_handlers is old(self._update_handlers) and forall(lambda k: implies(0 <= k and k < K, self._update_handlers[k].g_rebuilt == True), self._update_handlers[k]))
+    ensures(forall(lambda k: implies(0 <= k and k < len(self._update_handlers), self._update_handlers[k].g_rebuilt == True), self._update_handlers[k]))
+
+# clear(): the item list is empty afterwards and every view learns about it - told to rebuild, or told the exact splice (0, old length, [])
+@contract('RepeatedNodeWrapper.clear')
+def _(self):
+    requires(W(self))
+    modifies('list[RawModel]@self._repeated.items', 'RepeatedNodeWrapper.g_l@self', 'RepeatedNodeWrapper.g_r@self', 'RepeatedNodeWrapper.g_nv@self',
+             'RepeatedNodeWrapperUpdateHandler.g_hl', 'RepeatedNodeWrapperUpdateHandler.g_hr', 'RepeatedNodeWrapperUpdateHandler.g_hv', 'RepeatedNodeWrapperUpdateHandler.g_rebuilt')
+    ensures(len(self._repeated.items) == 0)
+    ensures(implies(forall(lambda j, k: implies(0 <= j and j < k and k < len(self._update_handlers), self._update_handlers[j] != self._update_handlers[k])),
+                    forall(lambda k: implies(0 <= k and k < len(self._update_handlers), self._update_handlers[k].g_rebuilt == True
+                           or (self._update_handlers[k].g_hl == 0 and self._update_handlers[k].g_hr == old(len(self._repeated.items)) and len(self._update_handlers[k].g_hv) == 0)), self._update_handlers[k])))
 
 @contract('RepeatedNodeWrapper.__len__')
 def _(self):
